@@ -1,7 +1,7 @@
 //! epdh: run scripts against the real epd-waveshare crate through recording mocks and print
 //! canonical traces.  Usage:
 //!   epdh run   [--full] <script>     driver scripts (see DESIGN.md / tools/gen.py)
-//!   epdh pure  <what> [args]         pure-function probes (graphics / colour / rect)
+//!   epdh pure  <queryfile>           pure-function queries (src/pure.rs, tools/pure.py)
 mod big;
 mod pure;
 mod world;
@@ -541,7 +541,7 @@ fn main() {
             pure::main(&args[2..], &mut lock);
         }
         _ => {
-            eprintln!("usage: epdh run [--full] <script> | epdh pure <what> ...");
+            eprintln!("usage: epdh run [--full] <script> | epdh pure <queryfile>");
             std::process::exit(2);
         }
     }
